@@ -11,13 +11,13 @@ def quiet():
     return contextlib.redirect_stdout(io.StringIO())
 
 
-def gen_dataset(R, tag, ncols=None, with_pids=False, n=None):
+def gen_dataset(R, tag, ncols=None, with_pids=False, n=None, force_kinds=None):
     """a small mixed-type table whose values are marked with `tag` (so that foreign values are recognisable)"""
     n = n or R.choice([120, 200]); ncols = ncols or R.choice([2, 3])
     cols = {}
     kinds = []
     for j in range(ncols):
-        k = R.choice(["int", "str", "float", "bool", "ts"])
+        k = force_kinds[j % len(force_kinds)] if force_kinds else R.choice(["int", "str", "float", "bool", "ts"])
         style = R.random()
         nm = f"{'abc'[j % 3]}{j}" if style < 0.5 else (f"{tag}col{j}" if style < 0.7 else
              ["temperature_sensor_inlet", "temperature_sensor_outlet", "temperature_sensor_in let", "a b", "a_b", "a:b"][(j + tag) % 6])
